@@ -327,7 +327,11 @@ func (*Ufs) Walk(req *SrvReq) {
 		path = p
 	}
 
-	nfid.path = path
+	// Only a complete walk moves the new fid (which may be the fid itself);
+	// after a partial walk both fids are left as they were.
+	if i == len(tc.Wname) {
+		nfid.path = path
+	}
 	req.RespondRwalk(wqids[0:i])
 }
 
